@@ -217,6 +217,7 @@ func (rp recvProp) runReal(c Case, who, smid string, n0 int, rng *rand.Rand) str
 	var disc []string
 	serr := 0
 	router := xmpp.NewRouter()
+	router.NewRoute().IQNamespaces("urn:verif:never", "urn:verif:never2").HandlerFunc(func(s xmpp.Sender, p stanza.Packet) {})
 	router.NewRoute().HandlerFunc(func(s xmpp.Sender, p stanza.Packet) {
 		mu.Lock()
 		routed = append(routed, recvKey(p))
